@@ -18,6 +18,9 @@ EXPLANATION = (
     'of deadlock and of data races on guarded state; equivalence with a '
     'sequential run (atomicity across critical sections) is not decided.'
     " R9.5: shared mkdir tolerates a concurrent creator (handler that swallows FileExistsError / exist_ok). R9.6: whenever a reservation is counted the caller's created directories are consulted before the loop is left, so a concurrently created directory keeps an owner. R9.7: guarded counters are read and incremented in one critical section. R9.8: a rejected call releases its directory reservation (typestate of C14 on _build_file). R9.9: the claim/run/finish protocol of C08 (R8.2, R8.3).")
+# round 3/4 additions
+EXPLANATION += (
+    ' R9.3 includes a census of the shared mutable state of the lock-owning classes (guarded, or read-only after construction with that verified). R9.6 also decides completeness of the ownership transfer on the already-reserved path. R9.9 includes the subtree repeat test (R8.2b) and the failure order of build_file (R10.2).')
 
 
 def r9_1(ctx, rc):
